@@ -638,6 +638,84 @@ func c04(x *mon.Ctx) {
 		}
 		x.Require("level-dates", n/7, n*6/7, n)
 	}
+	// ---- two machines of one fleet (one PCK CA, one FMSPC, one TCB Info), one options value: the patched machine's quote is
+	//      accepted; the unpatched machine's quote arrives while the PCS is down (an error); it is retried with the PCS back — and
+	//      is judged by ITS certificate's SVNs (OutOfDate), not by those of the certificate seen two calls earlier
+	{
+		n := 0
+		for wi := 0; wi < x.Pick(3, 10); wi++ {
+			r := x.Rand(fmt.Sprint("fleet", wi))
+			p := world.RandPlatform(r)
+			for i := range p.Comp {
+				p.Comp[i], p.TeeTcb[i] = byte(2+r.Intn(200)), byte(2+r.Intn(200))
+			}
+			p.PceSvn = uint16(2 + r.Intn(60000))
+			p.TeeTcb[1] = 0
+			pw := world.Honest(r, world.HonestOpts{Shape: world.QuoteShape{AuthLen: 32}, Platform: p})
+			// the unpatched machine: same PKI, same TEE TCB, a PCK certificate with lower SGX / PCE SVNs
+			up := *pw.P
+			switch wi % 3 {
+			case 0:
+				up.PceSvn--
+			case 1:
+				up.Comp[r.Intn(16)]--
+			default:
+				up.PceSvn--
+				up.Comp[0]--
+			}
+			uw := pw.Clone()
+			uw.P = &up
+			uw.PKI.Leaf = world.Issue(world.LeafTemplate(world.Far, world.SgxExtension(&up)), pw.PKI.Inter, world.NewKey())
+			uw.Q.Chain = world.ChainPEM(false, uw.PKI.Leaf, pw.PKI.Inter, pw.PKI.Root)
+			uw.Q.SignQE(uw.PKI.Leaf.Key)
+			low := world.Level{Sgx: up.Comp, Pce: up.PceSvn, Tdx: up.TeeTcb, Status: "OutOfDate"}
+			for i := range low.Sgx {
+				if low.Sgx[i] > 0 && i%2 == 0 {
+					low.Sgx[i]--
+				}
+			}
+			for _, ww := range []*world.World{pw, uw} {
+				ww.Tcb.Levels = []world.Level{{Sgx: pw.P.Comp, Pce: pw.P.PceSvn, Tdx: pw.P.TeeTcb, Status: "UpToDate"}, low}
+				ww.Resign()
+				ww.MakeCRLs(nil, nil)
+			}
+			for _, downWhat := range []string{"/tcb?", "/qe/identity"} {
+				for _, order := range []string{"P,U-down,U", "P,U-down,U,P", "U-down,P,U", "P,P-down,U"} {
+					sh := &verify.Options{}
+					var prob string
+					var hist []string
+					for step, name := range strings.Split(order, ",") {
+						ww := pw
+						if strings.HasPrefix(name, "U") {
+							ww = uw
+						}
+						c := ww.Case(world.LColl, "fleet-history-with-an-outage", fmt.Sprintf("w%d/%s/%s-down/step%d", wi, order, downWhat, step+1))
+						if strings.HasSuffix(name, "-down") {
+							for u := range c.Resp {
+								if strings.Contains(u, downWhat) {
+									c.Resp[u] = world.Resp{Err: "connection refused"}
+								}
+							}
+						}
+						out := mon.RunVerifyShared(c, sh)
+						fresh := mon.RunVerify(c)
+						hist = append(hist, fmt.Sprintf("%s:%v", name, out.Accepted))
+						if out.Panic != "" || out.Accepted != fresh.Accepted {
+							prob = fmt.Sprintf("history %s through one options value, call %d (%s): accepted=%v (%s%s); a fresh value: accepted=%v (%s); so far %v", order, step+1, name, out.Accepted, out.Err, out.Panic, fresh.Accepted, fresh.Err, hist)
+							x.Violation("fleet-history-with-an-outage", c.Param, prob, "verify", c)
+							break
+						}
+						if name == "U" && fresh.Accepted {
+							x.Broken("c04 fleet history: the unpatched machine's quote is accepted by a fresh verifier")
+						}
+					}
+					x.Note("fleet-history-with-an-outage", fmt.Sprintf("w%d/%s/%s", wi, order, downWhat), false, false, prob == "")
+					n++
+				}
+			}
+		}
+		x.Require("fleet-history-with-an-outage", 0, 0, n)
+	}
 	// ---- a threshold that is not a number in range (a quoted number, as re-serialising caches write them; 256 for a component,
 	//      65536 for the PCE SVN, 2^32): in the FIRST level, marked UpToDate, which the platform does not reach; the level it does
 	//      reach comes second and is OutOfDate. Refusing the document or passing over the level are both fine — reading the
